@@ -61,9 +61,6 @@ Proof.
       exact Hvs.
 Qed.
 
-Lemma check_array_len_ok n m : check_array_len n = Ok m -> m = n /\ n <= MAX_ARRAY.
-Proof. unfold check_array_len. destruct (N.ltb_spec MAX_ARRAY n) as [|Hn]; [discriminate|]. intros E. injection E as <-. auto. Qed.
-
 (** ** the theorem *)
 Theorem validate_sound be : forall vf t d off buf n,
   wf t = true -> tys_ok t = true -> bytes_ok buf -> off <= len buf ->
